@@ -1322,3 +1322,88 @@ def run_store_then_zeroed(run, P):
                                           '->%s is assigned and the whole object is then zeroed by memset() (%s) in the same block: the value is lost' % (fld, ev['loc'].rsplit('/', 1)[-1]))
     run.stats['memset_zero_sites'] = n
     return n
+
+
+def run_in_progress_not_failure(run, P, units=('coap_gnutls.c',), closer='coap_session_disconnected_lkd'):
+    """R-ROUTE (in progress is not failure): tri-state functions are computed - static functions of the TLS back end whose returns are exactly
+    the constants -1, 0 and 1 (do_gnutls_handshake: failed / not completed yet / established).  A condition that tests such a call directly
+    and whose deciding arm disconnects the session is evaluated for the three values: it must separate -1 from 0.  `<= 0` treats the
+    'handshake still running' answer that follows every timer-driven retransmission as a failure: one lost datagram aborts a handshake with
+    matching credentials."""
+    run.rule('R-ROUTE')
+    tri = set()
+    for f in P.lib_funcs():
+        if f['unit'] not in units:
+            continue
+        vals = set()
+        okf = True
+        for b, ev in P.events(f):
+            t = ev['e']
+            if t.get('k') == 'ret' and 'e' in t:
+                c = const_int(t['e'])
+                if c is None:
+                    a = ap(t['e'])
+                    if a is None:
+                        okf = False
+                    else:
+                        # a returned local: collect the constants assigned to it
+                        for b2, ev2 in P.events(f):
+                            t2 = ev2['e']
+                            if t2.get('k') == 'asg' and t2.get('op') == '=' and ap(t2['l']) == a:
+                                c2 = const_int(t2['r'])
+                                if c2 is None:
+                                    # the raw library result the function then maps (`ret = gnutls_handshake(..); switch (ret) ..`)
+                                    r2 = strip(t2['r'])
+                                    if not (isinstance(r2, dict) and r2.get('k') == 'call' and r2.get('fn') and not P.has(r2['fn'])):
+                                        okf = False
+                                else:
+                                    vals.add(c2)
+                            if t2.get('k') == 'decl':
+                                for d in t2['d']:
+                                    if 'v%d' % d['id'] == a and 'init' in d:
+                                        c2 = const_int(d['init'])
+                                        if c2 is None:
+                                            okf = False
+                                        else:
+                                            vals.add(c2)
+                else:
+                    vals.add(c)
+        if okf and vals == {-1, 0, 1}:
+            tri.add(f['name'])
+    n = 0
+    for f in sorted(P.lib_funcs(), key=lambda f: f['name']):
+        if f['unit'] not in units:
+            continue
+        B = f['B']
+        for b in f['blocks']:
+            c = strip((b.get('term') or {}).get('cond'))
+            if not (isinstance(c, dict) and c.get('k') == 'bin' and c.get('op') in ('<', '<=', '>', '>=', '==', '!=') and len(b['succ']) == 2):
+                continue
+            call, K, swap = None, None, False
+            for x, y, sw in ((c['l'], c['r'], False), (c['r'], c['l'], True)):
+                sx = strip(x)
+                if isinstance(sx, dict) and sx.get('k') == 'call' and sx.get('fn') in tri and const_int(y) is not None:
+                    call, K, swap = sx, const_int(y), sw
+            if call is None:
+                continue
+            n += 1
+
+            def ev_(v):
+                a, b_ = (K, v) if swap else (v, K)
+                return {'<': a < b_, '<=': a <= b_, '>': a > b_, '>=': a >= b_, '==': a == b_, '!=': a != b_}[c['op']]
+            r = [ev_(-1), ev_(0), ev_(1)]
+            run.instance('R-ROUTE', '%s: test of %s()' % (f['name'], call['fn']))
+            merged = r[0] == r[1] and r[1] != r[2]
+            bad = False
+            if merged:
+                arm = 0 if r[0] else 1
+                for bb in f['blocks']:
+                    deps = transitive_control_deps(f, bb['id'])
+                    if (b['id'], arm) in deps and any(isinstance(t, dict) and t.get('k') == 'call' and t.get('fn') == closer for ev in bb['elems'] for t in walk(ev['e'])):
+                        bad = True
+            run.oblige('R-ROUTE', not bad, '%s:in-progress-not-failure' % f['name'])
+            if bad:
+                run.violation('R-ROUTE', f['name'], (b.get('term') or {}).get('loc') or f['loc'], 'in-progress-treated-as-failure:%s' % call['fn'],
+                              '`%s` is true for -1 (failed) AND for 0 (not completed yet) and leads to %s(): a handshake that is merely still running - the normal answer after a '
+                              'retransmission timer - is torn down' % (short(c)[:60], closer))
+    run.require_count(n >= 1 or run.cfg != 'base' or run.fixture_mode, 'R-ROUTE (in progress is not failure): no direct test of a tri-state handshake function found')
